@@ -402,26 +402,41 @@ def davStripOrigin (scheme authority dest : Bytes) : Except Nat Bytes :=
       | none => .error 502
       | some k => if hostpart.drop (k + 1) = authority then .ok rest else .error 502
 
+/-- mod_webdav_copymove_b(), first half: the Destination header to the destination url-path
+    (dst->rel_path): origin check, query cut, PATH_MAX, decode, UTF-8, simplify, absolute, lower-case -/
+def davDstRel (lc : Bool) (scheme authority dest : Bytes) : Except Nat Bytes :=
+  match davStripOrigin scheme authority dest with
+  | .error st => .error st
+  | .ok p =>
+    let raw := p.takeWhile (· ≠ qmark)
+    if raw.length ≥ pathMax then .error 403 else
+    let d := urldecodePath raw
+    if !validUtf8 d then .error 400 else
+    let d := pathSimplify d
+    if d.head? ≠ some slash then .error 400 else
+    .ok (if lc then lowerBytes d else d)
+
+/-- start of the last common directory of the source and destination url-paths -/
+def davRemapIdx (srcRel d : Bytes) : Nat := backToSlash srcRel (commonLen srcRel d)
+
+/-- second half: the destination physical path.  If the source physical path ends with the
+    source url-path below the common directory, that physical prefix is kept (alias support);
+    otherwise doc_root + url-path -/
+def davDstPath (docroot srcRel srcPath d : Bytes) : Bytes :=
+  let i := davRemapIdx srcRel d
+  let remain := srcRel.length - i
+  if srcRel.drop i = srcPath.drop (srcPath.length - remain) then
+    pathAppend (srcPath.take (srcPath.length - remain)) (d.drop i)
+  else pathAppend docroot d
+
 /-- mod_webdav_copymove_b(): Destination header to (dst rel_path, dst physical path);
     `srcRel`/`srcPath` = physical.rel_path / physical.path of the request, `docroot` = physical.doc_root -/
 def davDestination (lc : Bool) (scheme authority docroot srcRel srcPath dest : Bytes) : DavDst :=
-  match davStripOrigin scheme authority dest with
+  match davDstRel lc scheme authority dest with
   | .error st => .status st
-  | .ok p =>
-    let raw := p.takeWhile (· ≠ qmark)
-    if raw.length ≥ pathMax then .status 403 else
-    let d := urldecodePath raw
-    if !validUtf8 d then .status 400 else
-    let d := pathSimplify d
-    if d.head? ≠ some slash then .status 400 else
-    let d := if lc then lowerBytes d else d
-    let i := backToSlash srcRel (commonLen srcRel d)
-    let remain := srcRel.length - i
-    if srcPath.length ≤ remain then .status 403 else
-    let dstPath :=
-      if srcRel.drop i = srcPath.drop (srcPath.length - remain) then
-        pathAppend (srcPath.take (srcPath.length - remain)) (d.drop i)
-      else pathAppend docroot d
+  | .ok d =>
+    if srcPath.length ≤ srcRel.length - davRemapIdx srcRel d then .status 403 else
+    let dstPath := davDstPath docroot srcRel srcPath d
     if dstPath.length ≥ pathMax then .status 403 else
     -- destination must not be the source or nested under it
     if srcPath.length ≤ dstPath.length && dstPath.take srcPath.length = srcPath
